@@ -52,7 +52,7 @@ def required_cells(tier):
     cells = [f"eol:{s}" for s in cscan.STATE_NAMES if s not in ("STRING", "CHAR")]
     cells += ["splice", "splice-in-comment", "splice-in-directive", "directive", "directive-multi-line",
               "comment-marker-in-literal", "quote-in-comment", "no-final-newline", "class:E1", "class:E2", "class:R",
-              "via-FileParser", "gcc-crosscheck"]
+              "via-FileParser", "gcc-crosscheck", "crlf-line-ends"]
     return cells
 
 
@@ -225,6 +225,9 @@ def check_text(ctx, text, cls, work, sample_rng, via_file=False):
     if not problems and via_file:
         problems = file_parser_check(ctx, text, ref, work)
         cells.add("via-FileParser")
+        if not problems and cls == "R" and len(text) % 7 == 0 and "\\" not in text:
+            problems = file_parser_check(ctx, text, ref, work, crlf=True)
+            cells.add("crlf-line-ends")
     if not problems:
         acc.held(cells=cells, nontrivial=nontrivial, cls=cls,
                  sample={"text": text, "counted": ref.counted, "directive_lines": sorted(ref.directive)})
@@ -242,12 +245,13 @@ def check_text(ctx, text, cls, work, sample_rng, via_file=False):
                  mechanism=mech, cells=cells, nontrivial=nontrivial, cls=cls)
 
 
-def file_parser_check(ctx, text, ref, work):
-    """Same text through FileParser.parse_file on a real file: node.lines, node classes, total_sloc."""
+def file_parser_check(ctx, text, ref, work, crlf=False):
+    """Same text through FileParser.parse_file on a real file: node.lines, node classes, total_sloc.
+    crlf: the file is written with CRLF line ends (same physical lines, same expected classes)."""
     from codebasin import file_parser, preprocessor
     path = os.path.join(work, "fp.c")
     with open(path, "w", newline="") as f:
-        f.write(text)
+        f.write(text.replace("\n", "\r\n") if crlf else text)
     problems = []
     try:
         tree = file_parser.FileParser(path).parse_file(summarize_only=False)
